@@ -11,7 +11,7 @@ use std::panic::{catch_unwind, AssertUnwindSafe};
 use std::rc::Rc;
 use suiron::*;
 
-pub fn props_of(_case: &Value) -> Vec<&'static str> { vec!["C10", "C22"] }
+pub fn props_of(case: &Value) -> Vec<&'static str> { if case["rebuild"].as_bool() == Some(true) { vec!["C10", "C22", "C02"] } else { vec!["C10", "C22"] } }
 
 pub fn replay(case: &Value) -> Vec<Obs> {
     let kb = build_kb(&case["prog"]);
@@ -38,7 +38,11 @@ pub fn replay(case: &Value) -> Vec<Obs> {
         let (mut ga, mut gb): (Vec<Seg>, Vec<Seg>) = (vec![], vec![]);
         let mut panicked = false;
         capture::take();
+        let rebuild = case["rebuild"].as_bool().unwrap_or(false);
         for who in &sched {
+            // (searches without any variable: building one more query in between -- which restarts the id counter and
+            //  whatever else the constructors reset -- must not matter to them)
+            if rebuild { let _third = if ctor == "make_query" { Some(make_query(vec![Unifiable::Atom("r0".into())])) } else { parse_query("r0").ok() }; }
             let (sn, args, got) = if who == "A" { (&sa, &aa, &mut ga) } else { (&sb, &ab, &mut gb) };
             if mode == "solve" {
                 // the way main.rs asks: solve() on the node; the reply is text
@@ -69,10 +73,17 @@ pub fn replay(case: &Value) -> Vec<Obs> {
         if !panicked && ga == ea && gb == eb {
             obs.push(Obs::ok("C10", kind));
             if kind == "two-live-searches" { obs.push(Obs::ok("C22", "two-live-queries")); }
+            if case["rebuild"].as_bool() == Some(true) { obs.push(Obs::ok("C02", "cut-while-other-queries-are-built")); }
         }
         else {
             // C22: what a query answers does not depend on what was asked of OTHER queries in between (re-asks of an
             // exhausted one included); the histories of the recorded finding are C10's alone
+            if case["rebuild"].as_bool() == Some(true) {
+                // C02: the calls of these queries are committed by a cut; building other queries in between changes nothing
+                obs.push(Obs::bad("C02", "cut-while-other-queries-are-built", format!("{} :: {} ?- {} (A) and ?- {} (B), a third query built before every request, requests {} :: reference A {} B {} / engine A {} B {}",
+                    show_prog(&case["prog"]), format!("{} + {}", ctor, mode), show(&ta).replace("_0", ""), show(&tb).replace("_0", ""), sched.join(""),
+                    show_segs(&ea), show_segs(&eb), show_segs(&ga), show_segs(&gb))));
+            }
             if kind == "two-live-searches" {
                 obs.push(Obs::bad("C22", "two-live-queries", format!("{} :: {} ?- {} (A) and ?- {} (B), requests {} :: reference A {} B {} / engine A {} B {}",
                     show_prog(&case["prog"]), format!("{} + {}", ctor, mode), show(&ta).replace("_0", ""), show(&tb).replace("_0", ""), sched.join(""),
